@@ -9,7 +9,8 @@
                    log.Fatalf = process exit, log.Panicf = Go panic, fuel, outside the model).
    * [run]         interprets a program on the in-memory file system model [fs] (kyaml fsNode
                    semantics, including its quirks), with [fault : option nat] failing the i-th
-                   FALLIBLE effect (those that return an error in Go) without touching the state,
+                   file-system CALL without touching the state (a call that returns an error
+                   returns one; Exists, which cannot, answers false),
                    and records the trace of effects (op, path, ok).
    * [chooser]     resolves Go's randomised map iteration (localizeNativeFields ranges over a map of
                    five fields, localizeBuiltinPlugins over a map of three): an arbitrary function of
@@ -65,7 +66,7 @@ Inductive prefkind := PFile | PFileSource | PK8s
 
 Inductive content :=
 | CRaw (id : N)                                  (* bytes of source file #id *)
-| CKust (k : kust)                               (* yaml.Marshal of a localized kustomization *)
+| CKust (id : N) (k : kust)                      (* yaml.Marshal of kustomization file #id with its path fields replaced *)
 | CPlug (id : N) (paths : list string).          (* AsYaml of plugin file #id with its paths replaced *)
 
 Record oracles := mkOrc {
@@ -191,7 +192,6 @@ Fixpoint walk_list (fuel : nat) (s : fs) (q : cpath) : list (string * bool) :=
 
 Inductive eff :=
 | EExists (p : string)
-| EIsDir (p : string)
 | EMkdir (p : string)
 | EMkdirAll (p : string)
 | ECleanedAbs (p : string)
@@ -236,6 +236,18 @@ Fixpoint pcatch {A} (m : prog A) : prog (option A) :=
   | Throw x => Throw x
   end.
 
+(* Go's deferred recover in localizer.Run (since the repair 113a8f3): an error return AND a panic are
+   intercepted (the cleanup runs, then the error is returned / the panic re-raised); a process exit
+   (log.Fatalf) is not *)
+Fixpoint ptry {A} (m : prog A) : prog (A + exn) :=
+  match m with
+  | Ret a => Ret (inl a)
+  | Op e k => Op e (fun r => ptry (k r))
+  | Throw XErr => Ret (inr XErr)
+  | Throw XPanic => Ret (inr XPanic)
+  | Throw x => Throw x
+  end.
+
 Notation "'dop' x <- m ; k" := (pbind m (fun x => k))
   (at level 200, x name, m at level 100, k at level 200, right associativity).
 
@@ -254,23 +266,29 @@ Definition op_bool (e : eff) : prog bool :=
 (* ------------------------------------------------------------------ interpreter *)
 
 Inductive opcode :=
-  OExists | OIsDir | OMkdir | OMkdirAll | OCleanedAbs | OReadFile | OWriteFile | ORemoveAll | OWalk.
+  OExists | OMkdir | OMkdirAll | OCleanedAbs | OReadFile | OWriteFile | ORemoveAll | OWalk.
 
 Record event := mkEv { ev_op : opcode; ev_path : string; ev_ok : bool }.
 
+(* every file-system CALL is a fault point (the pseudo effect Choose is not a call) *)
 Definition fallible (e : eff) : bool :=
-  match e with EExists _ | EIsDir _ | EChoose _ => false | _ => true end.
+  match e with EChoose _ => false | _ => true end.
+
+(* what a failed call returns: an error — or, for the two calls that cannot report one
+   (Exists: a failed stat reads as "no"), false *)
+Definition fail_res (e : eff) : eres :=
+  match e with EExists _ => RBool false | _ => RFail end.
 
 Definition eff_op (e : eff) : opcode :=
   match e with
-  | EExists _ => OExists | EIsDir _ => OIsDir | EMkdir _ => OMkdir | EMkdirAll _ => OMkdirAll
+  | EExists _ => OExists | EMkdir _ => OMkdir | EMkdirAll _ => OMkdirAll
   | ECleanedAbs _ => OCleanedAbs | EReadFile _ => OReadFile | EWriteFile _ _ => OWriteFile
   | ERemoveAll _ => ORemoveAll | EWalk _ => OWalk | EChoose _ => OExists
   end.
 
 Definition eff_path (e : eff) : string :=
   match e with
-  | EExists p | EIsDir p | EMkdir p | EMkdirAll p | ECleanedAbs p | EReadFile p
+  | EExists p | EMkdir p | EMkdirAll p | ECleanedAbs p | EReadFile p
   | EWriteFile p _ | ERemoveAll p | EWalk p => p
   | EChoose _ => ""
   end.
@@ -283,8 +301,6 @@ Definition exec (e : eff) (s : fs) : fs * eres :=
   match e with
   | EExists p =>
       (s, RBool match fs_find s p with FRoot | FNode _ _ => true | _ => false end)
-  | EIsDir p =>
-      (s, RBool match fs_find s p with FRoot | FNode _ EDir => true | _ => false end)
   | EMkdir p | EMkdirAll p =>
       match fs_mkdir s p with Some s' => (s', RUnit) | None => (s, RFail) end
   | ECleanedAbs p =>
@@ -329,7 +345,7 @@ Definition fault_hit (fault : option nat) (n : nat) : bool :=
 
 Definition step_world (fault : option nat) (e : eff) (w : world) : world * eres :=
   let hit := fallible e && fault_hit fault (w_n w) in
-  let '(s', r) := if hit then (w_fs w, RFail) else exec e (w_fs w) in
+  let '(s', r) := if hit then (w_fs w, fail_res e) else exec e (w_fs w) in
   (mkW s' (if fallible e then S (w_n w) else w_n w)
        (mkEv (eff_op e) (eff_path e) (res_ok r) :: w_trace w), r).
 
@@ -649,9 +665,12 @@ Section Localizer.
         dop found <- load_kust_file lc kust_names [] ;
         match found with
         | [(kname, c)] =>
-            match (match c with CRaw id => o_kust orc id | _ => None end) with
+            match (match c with
+                   | CRaw id => match o_kust orc id with Some k => Some (id, k) | None => None end
+                   | _ => None
+                   end) with
             | None => Throw XErr
-            | Some k =>
+            | Some (id, k) =>
                 (* localizeNativeFields *)
                 dop oa <- match k_openapi k with
                       | Some p => dop lp <- loc_file lc p ; Ret (Some lp)
@@ -695,7 +714,7 @@ Section Localizer.
                             (field_result 0 (k_generators k) pdone)
                             (field_result 1 (k_transformers k) pdone)
                             (field_result 2 (k_validators k) pdone) in
-                op_unit (EWriteFile (show_abs (join_abs (lc_dst lc) kname)) (CKust k'))
+                op_unit (EWriteFile (show_abs (join_abs (lc_dst lc) kname)) (CKust id k'))
             end
         | _ => Throw XErr                      (* none, or more than one kustomization file *)
         end
@@ -740,7 +759,7 @@ Definition localize_prelude (target scope newdir : string) : prog (cpath * cpath
   prelude_create x.
 
 (* part 2 — Run after NewLoader: MkdirAll(dst) (since d268200 with cleanup on failure),
-   localize(), cleanup on error.  Returns args.NewDir.String(). *)
+   localize(), cleanup on error and — since 113a8f3 — on panic.  Returns args.NewDir.String(). *)
 Definition localize_tail (orc : oracles) (fuel : nat) (x : cpath * cpath * cpath) : prog string :=
   let '(sc, troot, nd) := x in
   let args := mkArgs sc nd in
@@ -748,10 +767,10 @@ Definition localize_tail (orc : oracles) (fuel : nat) (x : cpath * cpath * cpath
   Op (EMkdirAll (show_abs dst)) (fun r0 =>
     match r0 with
     | RUnit =>
-        dop r2 <- pcatch (localize orc args fuel (mkLc troot [] dst)) ;
+        dop r2 <- ptry (localize orc args fuel (mkLc troot [] dst)) ;
         match r2 with
-        | Some _ => Ret (show_abs nd)
-        | None => Op (ERemoveAll (show_abs nd)) (fun _ => Throw XErr)
+        | inl _ => Ret (show_abs nd)
+        | inr x => Op (ERemoveAll (show_abs nd)) (fun _ => Throw x)   (* x = XErr: error return; XPanic: re-panic *)
         end
     | _ => Op (ERemoveAll (show_abs nd)) (fun _ => Throw XErr)
     end).
